@@ -20,7 +20,7 @@ SPEC = {
             "class, operation)",
     "minimum": {"quick": {"check_str_judged": 500, "parse_judged": 500, "check_tree_vs_str": 150, "syntactically_invalid": 200, "semantically_invalid": 150,
                           "repairs_judged_behind_shim": 60, "mutations_judged_behind_shim": 10},
-                "thorough": {"check_str_judged": 20000, "parse_judged": 20000, "repairs_judged_behind_shim": 1500, "mutations_judged_behind_shim": 250}},
+                "thorough": {"check_str_judged": 15000, "parse_judged": 15000, "repairs_judged_behind_shim": 1500, "mutations_judged_behind_shim": 250}},
     "assumptions": ["R1 membership/uniqueness of derivation, R2 satisfaction; R2 abstentions and ambiguous strings are inconclusive",
                     "for check(tree), repair and mutate the statement constrains what is returned: exceptions there are recorded, "
                     "except the returns-API drift which is a listed finding", "UnknownResultError from check(tree) is allowed by its docstring"],
